@@ -3,8 +3,8 @@ from kv_engine import *
 import conc_engine
 import fmt_engine, re
 
-MODULE = "Feox.Props.C13"
-THEOREMS = ['Feox.C13.step_exact', 'Feox.C13.exact', 'Feox.C13.zero_when_empty', 'Feox.C13.insert_refused_changes_nothing', 'Feox.C13.reserve_within_limit', 'Feox.Kv.sweepAll_acc', 'Feox.Kv.doReopen_acc',
+MODULE = "Feox.Props.C13W"
+THEOREMS = ['Feox.C13.recovery_counters_exact', 'Feox.Fmt.scan_acct', 'Feox.Fmt.insertLive_replace', 'Feox.C13.step_exact', 'Feox.C13.exact', 'Feox.C13.zero_when_empty', 'Feox.C13.insert_refused_changes_nothing', 'Feox.C13.reserve_within_limit', 'Feox.Kv.sweepAll_acc', 'Feox.Kv.doReopen_acc',
             'Feox.C13.limit_never_exceeded_concurrently', 'Feox.C13.concurrent_counter_exact', 'Feox.Conc.Reserve.step_inv', 'Feox.C13.check_then_add_exceeds', 'Feox.C13.rebase_without_recheck_exceeds']
 
 
